@@ -3,6 +3,7 @@ CONSTANTS
   MissingOrder = "signature"
   Reorder = FALSE
   PadFromFront = FALSE
+  DocExtras = {}
 INVARIANT NoDropNoDup
 INVARIANT SigDefaults
 INVARIANT SourceOrder
